@@ -86,6 +86,8 @@ def cases(tier, seed):
     # fine problem plus the constant-rate equalities (C13 machinery)
     out.append(('coarse_contract_straddles_horizon_end', dict(shape='-', kw={}, level='coarse13', c13=dict(opt='coarse', kind='contract', T=5, win=(2, 9), ec=True))))
     out.append(('coarse_storage', dict(shape='-', kw={}, level='coarse13', c13=dict(opt='coarse', kind='storage', T=4, eff=0.75))))
+    out.append(('coarse_take_contract', dict(shape='-', kw={}, level='coarse13', c13=dict(opt='coarse', kind='take', T=4))))
+    out.append(('coarse_take_contract_last_interval_shorter', dict(shape='-', kw={}, level='coarse13', c13=dict(opt='coarse', kind='take', T=5))))
     out.append(('coarse_contract_discounted', dict(shape='-', kw={}, level='coarse13', c13=dict(opt='coarse', kind='contract', T=4, ec=True, wacc=True, freq='d', coarse='2d'))))
     out.append(('coarse_transport_discounted', dict(shape='-', kw={}, level='coarse13', c13=dict(opt='coarse', kind='transport', T=4, eff=0.5, costs=True, wacc=True, freq='d', coarse='2d'))))
     # sequences of calls on the same objects (decided with C10's history machinery: the final problem equals that of fresh objects)
